@@ -222,6 +222,18 @@ pub open spec fn collateral_eq(b: TransactionBuilder) -> bool {
     &&& col_coin(b) == ret_coin(b) + b.total_collateral->Some_0.0
     &&& forall|a: AssetId| col_qty(b, a) == ret_qty(b, a)
 }
+
+/// MinOutputAdaCalculator's surface (unit min_ada), so that an edit that goes through the calculator instead of min_ada_for_output still
+/// reaches the verifier: the calculator computes spec_min_ada of the output IT HOLDS (new_empty: a fixed fake 57-byte base address output)
+pub struct MinOutputAdaCalculator { pub output: TransactionOutput, pub data_cost: DataCost }
+pub uninterp spec fn fake_calc_output() -> TransactionOutput;
+impl MinOutputAdaCalculator {
+    #[verifier::external_body] pub fn new(output: &TransactionOutput, data_cost: &DataCost) -> (r: MinOutputAdaCalculator) ensures r.output == *output, r.data_cost == *data_cost { unimplemented!() }
+    #[verifier::external_body] pub fn new_empty(data_cost: &DataCost) -> (r: Result<MinOutputAdaCalculator, JsError>) ensures r is Ok ==> r->Ok_0.output == fake_calc_output() && r->Ok_0.data_cost == *data_cost { unimplemented!() }
+    #[verifier::external_body] pub fn set_address(&mut self, address: &Address) ensures *final(self) == (MinOutputAdaCalculator { output: TransactionOutput { address: *address, ..old(self).output }, ..*old(self) }) { unimplemented!() }
+    #[verifier::external_body] pub fn set_amount(&mut self, amount: &Value) ensures *final(self) == (MinOutputAdaCalculator { output: TransactionOutput { amount: *amount, ..old(self).output }, ..*old(self) }) { unimplemented!() }
+    #[verifier::external_body] pub fn calculate_ada(&self) -> (r: Result<BigNum, JsError>) ensures r is Ok ==> r->Ok_0.0 == spec_min_ada(self.output, self.data_cost) { unimplemented!() }
+}
 pub open spec fn return_meets_min_ada(b: TransactionBuilder) -> bool {
     b.collateral_return is Some ==> b.collateral_return->Some_0.amount.coin.0 >= spec_min_ada(b.collateral_return->Some_0, b.config.data_cost)
 }
